@@ -537,7 +537,13 @@ type Posf func(token.Pos) string
 
 func witness(parent map[*ssa.BasicBlock]*ssa.BasicBlock, to *ssa.BasicBlock, posf Posf) []string {
 	var rev []*ssa.BasicBlock
+	onPath := map[*ssa.BasicBlock]bool{}
 	for b := to; b != nil; b = parent[b] {
+		if onPath[b] && len(rev) > 1 {
+			rev = append(rev, b)
+			break
+		}
+		onPath[b] = true
 		rev = append(rev, b)
 		if len(rev) > 200 {
 			break
